@@ -252,6 +252,13 @@ func execute(id int, dir string, sc script, o, e []int, cancelled bool, long map
 		err = <-done
 	}
 	ev.Result, ev.Kind = resultOf(err)
+	// what the library logs about this run must be complete when Execute returns: anything that still arrives afterwards (the
+	// monitoring goroutine of an interrupted run reporting a second end) is part of the recording
+	if cancelled {
+		time.Sleep(150 * time.Millisecond)
+	} else {
+		time.Sleep(20 * time.Millisecond)
+	}
 	rec.mu.Lock()
 	for _, m := range rec.msgs {
 		switch {
